@@ -210,3 +210,47 @@ def q_all_nonempty(ex, args, kwargs):
 
 seqspec.SPEC_FORMS[flat] = q_flat
 seqspec.SPEC_FORMS[all_nonempty] = q_all_nonempty
+
+
+# ---------------------------------------------------------------------------
+# own_fresh(obj, 'name'): after a constructor, `obj.name` is an attribute of this very instance (assigned by the code
+# under contract -- not a default it merely inherits from its class, which every instance would share) and the object
+# it holds was created during the call.
+#   symbolically: the field exists in the instance and refers to a heap object allocated after entry (exact);
+#   natively (replay / cross-check): the name is in the instance dict and its value is neither a class-level attribute
+#   nor a global of the class's module (weaker than "created during the call", enough to witness a shared default).
+# ---------------------------------------------------------------------------
+_MISSING = object()
+
+
+def own_fresh(obj, name):
+    d = getattr(obj, '__dict__', {})
+    if name not in d:
+        return False
+    v = d[name]
+    if any(v is k.__dict__.get(name, _MISSING) for k in type(obj).__mro__):
+        return False
+    mod = sys.modules.get(type(obj).__module__)
+    return not any(v is g for g in vars(mod).values()) if mod is not None else True
+
+
+def q_own_fresh(ex, args, kwargs):
+    from .values import LazyVal, Obj
+
+    obj, name = args
+    if not isinstance(obj, Ref) or not isinstance(ex.obj(obj), Obj) or not isinstance(name, str):
+        raise Unsupported('own_fresh(obj, name): obj must be an instance, name a literal')
+    fields = ex.obj(obj).fields
+    if name not in fields:
+        return False  # not assigned: a read falls back to the class attribute, shared by all instances
+    v = fields[name]
+    if isinstance(v, LazyVal):
+        v = ex.force(v)
+    if isinstance(v, (Sym,)) or type(v).__name__ in ('Unknown', 'OpaqueStr', 'ElemRef'):
+        raise Unsupported(f'own_fresh: {name} holds a symbolic scalar / uninterpreted value ({v!r})')
+    if not isinstance(v, Ref):
+        return False  # a reflected native object (module- or class-level state) or a constant: it existed before the call
+    return v.oid not in ex.snapshots.get('old', {})
+
+
+seqspec.SPEC_FORMS[own_fresh] = q_own_fresh
